@@ -99,7 +99,7 @@ impl Policy for HistPolicy {
             // deviations from the default reply shape: no / two intermediate statuses, a print line or
             // an extra (empty) status information ahead of the final packet
             let r = Replies { table: t.table };
-            match ctx.dev(5, "reply-noise") {
+            match ctx.dev(6, "reply-noise") {
                 1 => steps.retain(|s| !matches!(s, Step::Packet(_, l) if l == "intermediate")),
                 2 => {
                     if let Some(i) = steps.iter().position(|s| matches!(s, Step::Packet(_, l) if l == "intermediate")) {
@@ -113,6 +113,10 @@ impl Policy for HistPolicy {
                 4 => {
                     let at = steps.len() - 1;
                     steps.insert(at, r.status(&[("result_code", vcore::codec::Val::Int(0))], "status-empty"));
+                }
+                5 => {
+                    let at = steps.len() - 1;
+                    steps.insert(at, r.print_text_block(&["RECEIPT", "LINE 2"]));
                 }
                 _ => {}
             }
